@@ -109,6 +109,8 @@ def build_program_case(rng, n_blocks=None, allow=None, main_modes=('usr', 'sys',
         # a Non-secure main program whose exceptions are all handled in Non-secure state (SCR.AW seeded; FW=1, see above)
         regs['sys']['scr'] = 1 | 1 << 4 | rng.getrandbits(1) << 5
     core = {'config': cfg, 'devices': devices, 'regs': regs, 'done_pc': G.CODE + len(code) - (2 if thumb else 4)}
+    if rng.random() < 0.15:
+        core['custom_fetch'] = True          # an integrator's fetch unit in place of the stock fetch_instruction() (sim/machine.py)
     meta = {'thumb': thumb, 'te': te, 'mode': mode, 'returns': rets, 'main_lo': G.CODE, 'main_hi': G.CODE + len(code),
             'handlers': {k: list(v) for k, v in hinfo.items()}, 'e': e_main, 'ee': ee}
     return core, meta
